@@ -78,6 +78,12 @@ def getattr_(I, st, ov, attr, ctx):
         r = builtins_lib.module_attr(I, ov, attr, ctx)
         if r is not None:
             return [(st, r)]
+    if isinstance(ov, Sym) and I.sym_fields is not None and not ctx.get("$call_position") \
+            and attr not in I.sym_fields and not attr.startswith("__"):
+        # a contract that models symbolic objects with field maps: every attribute *read* (not a
+        # method call) of a symbolic object is a field read — never a method object (which would
+        # e.g. make `p.default is None` constantly False)
+        I.sym_fields.add(attr)
     if isinstance(ov, Sym) and I.sym_fields and attr in I.sym_fields:
         F = sym_field(I, st, attr)
         t = z3.Select(F, ov.t)
@@ -154,6 +160,12 @@ def sym_field(I, st, attr):
 
 
 def setattr_(I, st, ov, attr, v, ctx):
+    if isinstance(ov, Sym) and I.sym_fields is not None and not ctx.get("$call_position") \
+            and attr not in I.sym_fields and not attr.startswith("__"):
+        # a contract that models symbolic objects with field maps: every attribute *read* (not a
+        # method call) of a symbolic object is a field read — never a method object (which would
+        # e.g. make `p.default is None` constantly False)
+        I.sym_fields.add(attr)
     if isinstance(ov, Sym) and I.sym_fields and attr in I.sym_fields:
         F = sym_field(I, st, attr)
         st.ghost["F_" + attr] = z3.Store(F, ov.t, I.term(v))
